@@ -598,3 +598,189 @@ read_and_format = REG.add(Contract(
     ghost={"built": z3.BoolVal(False), "read_with_info": z3.Const("nothing_read", V)},
     calls={"self._read_chunk": _read_chunk_hook, "strax.Chunk": _chunk_ctor_hook, "self.apply_time_range": Abstract(pure=True)},
 ))
+
+
+# --------------------------------------------------------------------------------------
+# StorageBackend._read_format_split_chunk: rechunking on load hands out the whole chunk, piece by piece (C16 / C03)
+# --------------------------------------------------------------------------------------
+from contracts.chunk import CHUNK, chunk_wf  # noqa: E402
+from pyvc.engine import ArrT  # noqa: E402
+from pyvc.ops import Namespace  # noqa: E402
+
+MIN_GAP = 1000          # strax.DEFAULT_CHUNK_SPLIT_NS
+
+
+def _read_hook(eng, args, kw, st, fr, k, node):
+    """self._read_and_format_chunk(**kwargs): some well-formed chunk (its own contract is above)"""
+    fr.on_raise(Exc("Any", Opq(eng.fresh("read_exc", "V"))), st)
+    ref, st = make_symbolic(eng, eng.new_base("read_chunk"), CHUNK, st, set())
+    view = eng.resolve(ref, st.heap)
+    for _, f in chunk_wf(eng.S, view):
+        st = st.assume(eng.S.b(f))
+    g = dict(st.ghost)
+    g["py:R"] = ref
+    g["cur_end"] = st.heap[ref.base]["start"]
+    return k(ref, St(st.env, st.heap, st.pc, g))
+
+
+def _get_splits_hook(eng, args, kw, st, fr, k, node):
+    """strax.Rechunker.get_splits(data, size, min_gap): ASSUMED contract (bounded stand-in C07): indices 0 = s0 < s1 < ... < N
+    such that before every s_k (k >= 1) there is a gap larger than min_gap to ALL earlier rows."""
+    eng.assumptions.add("assumed contract of Rechunker.get_splits (checked by the bounded rechunker stand-in only): split indices start "
+                        "at 0, increase strictly, stay below the row count, and each one follows a gap > min_gap to every earlier row")
+    fr.on_raise(Exc("ValueError"), st)
+    data = args[0]
+    from pyvc.engine import Arr as _Arr
+    if not isinstance(data, _Arr):
+        # (only on the infeasible path future + rechunk)
+        return k(Opq(eng.fresh("split_indices", "V")), st.assume(z3.BoolVal(False)))
+    s_arr, st = make_symbolic(eng, eng.new_base("split_indices"), ArrT("int"), st, set())
+    S = eng.S
+    sv, dv = eng.resolve(s_arr, st.heap), eng.resolve(data, st.heap)
+    facts = [sv.n >= 1, sv.at(0) == 0,
+             S.forall(0, sv.n - 1, lambda j: sv.at(j) < sv.at(j + 1)),
+             S.forall(0, sv.n, lambda j: S.And(0 <= sv.at(j), sv.at(j) < S.max(dv.n, 1))),
+             S.forall(1, sv.n, lambda j: S.forall(0, dv.n, lambda r: S.Implies(r < sv.at(j), dv.f("endtime", r) + MIN_GAP < dv.f("time", sv.at(j)))))]
+    for f in facts:
+        st = st.assume(S.b(f))
+    g = dict(st.ghost)
+    g["py:S"] = s_arr
+    return k(s_arr, St(st.env, st.heap, st.pc, g))
+
+
+def _np_diff_hook(eng, args, kw, st, fr, k, node):
+    """np.diff(a): the consecutive differences (library model)"""
+    a = args[0]
+    from pyvc.engine import Arr as _Arr
+    if not isinstance(a, _Arr):
+        return k(Opq(eng.fresh("diffs", "V")), st.assume(z3.BoolVal(False)))
+    d_arr, st = make_symbolic(eng, eng.new_base("diffs"), ArrT("int"), st, set())
+    S = eng.S
+    av, dv = eng.resolve(a, st.heap), eng.resolve(d_arr, st.heap)
+    st = st.assume(S.b(dv.n == av.n - 1))
+    st = st.assume(S.b(S.forall(0, dv.n, lambda j: dv.at(j) == av.at(j + 1) - av.at(j))))
+    return k(d_arr, st)
+
+
+def _rfs_views(a):
+    R = a.pyghost.get("py:R")
+    return R
+
+
+def _same_rows(S, piece, R, off):
+    return S.forall(0, piece.n, lambda j: S.And(piece.f("time", j) == R.f("time", off + j), piece.f("endtime", j) == R.f("endtime", off + j)))
+
+
+def _rfs_loop(S, a):
+    if "R" not in a.rghost or "S" not in a.rghost:
+        return []           # (infeasible path: a future is never rechunked)
+    R, sv = a.rghost["R"], a.rghost["S"]
+    c = a.chunk
+    g = a.ghost
+    return [("the part not yet handed out is a well-formed chunk", S.And(*[f for _, f in chunk_wf(S, c)])),
+            ("it starts where the last piece ended and ends where the read chunk ends", S.And(c.start == g.cur_end, c.end == R.end)),
+            ("exactly the rows before the k-th split index have been handed out", S.And(g.rows_out == sv.at(a.k_), a.k_ < sv.n, g.n_yields >= 0)),
+            ("the remaining rows are the read chunk's rows from there on", S.And(g.rows_out + c.data.n == R.data.n, _same_rows(S, c.data, R.data, g.rows_out)))]
+
+
+def _rfs_yields(S, a, v):
+    if not hasattr(v, "data"):
+        return [("without rechunking the (future of the) chunk itself is handed out", S.Not(a.rechunk))]
+    if "R" not in a.rghost:
+        return []
+    R = a.rghost["R"]
+    g = a.ghost
+    return [("each piece starts where the previous one ended (the first at the chunk's start)", v.start == g.cur_end),
+            ("each piece carries the next rows of the read chunk, unchanged and in order",
+             S.And(g.rows_out + v.data.n <= R.data.n, _same_rows(S, v.data, R.data, g.rows_out)))]
+
+
+def _rfs_after_yield(eng, st, value):
+    g = dict(st.ghost)
+    from pyvc.engine import Ref as _Ref
+    if isinstance(value, _Ref):
+        cell = st.heap[value.base]
+        g["cur_end"] = cell["end"]
+        g["rows_out"] = g["rows_out"] + cell["data"].n
+    g["n_yields"] = g["n_yields"] + 1
+    return St(st.env, st.heap, st.pc, g)
+
+
+def _rfs_ens(S, a, r):
+    g = a.ghost
+    R = a.pyghost.get("py:R")
+    if R is None:
+        return [("a future is handed out only when no rechunking was asked for and an executor is given",
+                 S.And(S.Not(a.rechunk), S.Not(S.is_none(a.executor)), g.n_yields == 1))]
+    Rv = a.rghost["R"]
+    return [("at least one piece is handed out", g.n_yields >= 1),
+            ("without rechunking exactly the chunk that was read", S.Implies(S.Not(a.rechunk), g.n_yields == 1)),
+            ("the pieces cover the read chunk up to its end and carry all of its rows (nothing is dropped, also not an empty tail)",
+             S.And(g.cur_end == Rv.end, g.rows_out == Rv.data.n))]
+
+
+read_format_split = REG.add(Contract(
+    FC, "StorageBackend._read_format_split_chunk",
+    params=dict(self="V", read_chunk_kwargs="V", rechunk="bool", source_size_mb="V", executor="V"),
+    ensures=_rfs_ens,
+    raises={"Any": lambda S, a: S.true, "ValueError": lambda S, a: S.true, "ValueError:runs": lambda S, a: S.true,
+            "CannotSplit": lambda S, a: S.false},
+    yields=_rfs_yields,
+    ghost={"cur_end": z3.IntVal(0), "rows_out": z3.IntVal(0), "n_yields": z3.IntVal(0)},
+    calls={"self._read_and_format_chunk": _read_hook, "executor.submit": Abstract(), "strax.Rechunker.get_splits": _get_splits_hook,
+           "np.diff": _np_diff_hook},
+    consts={"strax.DEFAULT_CHUNK_SPLIT_NS": z3.IntVal(MIN_GAP)},
+    loops={1: Loop(_rfs_loop)},
+    loop_ghost={1: ["cur_end", "rows_out", "n_yields"]},
+    local_sorts={"chunk": CHUNK},
+))
+read_format_split.after_yield = _rfs_after_yield
+
+
+# --------------------------------------------------------------------------------------
+# FileSaver.__init__: a new attempt starts from an empty temporary directory (C04)
+# --------------------------------------------------------------------------------------
+FS = "strax/storage/files.py"
+EXISTS = z3.Function("fs_exists_at_entry", V, z3.BoolSort())
+
+
+def _exists_hook(eng, args, kw, st, fr, k, node):
+    p = eng.to_v(args[0])
+    return k(z3.And(EXISTS(p), z3.Not(z3.Select(st.ghost["Removed"], p))), st)
+
+
+def _rmtree_hook(eng, args, kw, st, fr, k, node):
+    g = dict(st.ghost)
+    g["Removed"] = z3.Store(g["Removed"], eng.to_v(args[0]), True)
+    fr.on_raise(Exc("OSError"), st)
+    return k(PNONE, St(st.env, st.heap, st.pc, g))
+
+
+def _makedirs_hook(eng, args, kw, st, fr, k, node):
+    p = eng.to_v(args[0])
+    temp = st.heap[st.env["self"].base]["tempdirname"] if hasattr(st.env["self"], "base") else None
+    eng.oblige("fresh-temp", "the temporary directory is created anew: whatever an earlier (crashed) attempt left there was removed first", st,
+               z3.Or(z3.Not(EXISTS(p)), z3.Select(st.ghost["Removed"], p)), node)
+    eng.oblige("fresh-temp", "creation is not allowed to silently reuse an existing directory", st,
+               z3.Not(eng.truth(kw.get("exist_ok", z3.BoolVal(False)))), node)
+    g = dict(st.ghost)
+    g["made"] = p
+    fr.on_raise(Exc("OSError"), st)
+    return k(PNONE, St(st.env, st.heap, st.pc, g))
+
+
+FILESAVER = ObjT("FileSaver", dirname="V", tempdirname="V", prefix="V", metadata_json="V", md="V")
+
+filesaver_init = REG.add(Contract(
+    FS, "FileSaver.__init__",
+    params=dict(self=FILESAVER, dirname="V", metadata="V", kwargs={}),
+    ensures=lambda S, a, r: [("the directory that was created is this saver's temporary directory", S.eq(a.ghost.made, a.self.tempdirname)),
+                             ("and an existing final directory of the same key was removed (overwrite)",
+                              S.Implies(EXISTS(S.v(a.dirname)), z3.Select(a.ghost.Removed, S.v(a.dirname))))],
+    raises={"OSError": lambda S, a: S.true, "Any": lambda S, a: S.true},
+    ghost={"Removed": z3.K(V, False), "made": z3.Const("nothing_made", V)},
+    calls={"super().__init__": Abstract(sort=None, may_raise=["Any"]), "os.path.exists": _exists_hook, "shutil.rmtree": _rmtree_hook,
+           "os.makedirs": _makedirs_hook, "print": Abstract(sort=None), "dirname_to_prefix": Abstract(pure=True),
+           "self._flush_metadata": Abstract(sort=None, may_raise=["OSError"])},
+    consts={"RUN_METADATA_PATTERN": "%s-metadata.json"},
+))
